@@ -61,10 +61,13 @@ static void run_flow(const vh::Json& segs, uint32_t isn, bool v6, vh::Out& out, 
     Flow& f = *fp;
     f.data_callback([&](Flow& fl) { got.insert(got.end(), fl.payload().begin(), fl.payload().end()); fl.payload().clear(); });
     f.out_of_order_callback([&](Flow&, uint32_t s, const Flow::payload_type& p) { ooo.push_back(std::make_pair((long)(int32_t)(s - isn), (long)p.size())); });
+    // in the IPv6 runs the segment(s) reaching the highest position of the scenario carry FIN, as the sender's last segment
+    // does: "the segments of one direction in any order" includes the final segment overtaking earlier data
+    long top = 0; for (size_t i = 0; i < segs.size(); ++i) top = std::max<long>(top, segs[i][0].num() + segs[i][1].num());
     for (size_t i = 0; i < segs.size(); ++i) {
         long off = segs[i][0].num(), len = segs[i][1].num();
         got.clear(); ooo.clear();
-        TCP tcp(80, 4000); tcp.seq(isn + (uint32_t)off); tcp.flags(TCP::ACK);
+        TCP tcp(80, 4000); tcp.seq(isn + (uint32_t)off); tcp.flags((v6 && off + len == top) ? (TCP::ACK | TCP::FIN) : TCP::ACK);
         std::vector<uint8_t> b = seg_bytes(off, len);
         if (v6) { IPv6 p = IPv6("2001:db8::2", "2001:db8::1") / tcp / RawPDU(b.begin(), b.end()); f.process_packet(p); }
         else { IP p = IP("10.0.0.2", "10.0.0.1") / tcp / RawPDU(b.begin(), b.end()); f.process_packet(p); }
